@@ -168,19 +168,50 @@ theorem dotAt_imp (rest : Str) (h : dotAt rest = true) : dotOrCallAtR rest = tru
     have hc : c = dot := by simpa [dotAt, headIs] using h
     subst hc
     have hb : rewriteBlanks.contains dot = false := by decide
-    simp only [dotOrCallAtR, List.dropWhile_cons, hb, Bool.false_eq_true, if_false, headIs, List.head?_cons]
+    simp only [dotOrCallAtR, dotOrCallAtRP, List.dropWhile_cons, hb, Bool.false_eq_true, if_false, headIs, List.head?_cons]
     simp
 
-/-- what the rewrite keeps, the permission side does not skip — provided the look-aheads agree -/
-theorem keeps_not_skipped (W : World) (ctes : List Str) (I : Idents) (m m0 : Match)
+theorem contains_withUnquoted (W : World) (I : Idents) (ctes : List Str) (x : Str)
+    (h : ctes.contains x = true) : (withUnquoted W I ctes).contains x = true := by
+  rw [List.contains_iff_mem] at h ⊢
+  exact List.mem_append_left _ h
+
+/-- the two look-aheads agree since 00bd721 (regenerated trim sets are the same set of four blanks) -/
+theorem blanks_agree (c : Char) : extractBlanks.contains c = rewriteBlanks.contains c := by
+  have h1 : extractBlanks = [' ', '\t', '\n', '\r'] := by decide
+  have h2 : rewriteBlanks = [' ', '\t', '\r', '\n'] := by decide
+  rw [h1, h2]
+  simp only [List.contains_cons, List.contains_nil, Bool.or_false]
+  cases (c == ' ') <;> cases (c == '\t') <;> cases (c == '\n') <;> cases (c == '\r') <;> rfl
+
+theorem callAt_imp (rest : Str) (h : callAtX rest = true) : dotOrCallAtR rest = true := by
+  unfold callAtX at h
+  unfold dotOrCallAtR dotOrCallAtRP
+  have : (fun c => extractBlanks.contains c) = (fun c => rewriteBlanks.contains c) := funext blanks_agree
+  rw [this] at h
+  show (headIs dot _ || headIs '(' _) = true
+  rw [h, Bool.or_true]
+
+/-- what the rewrite keeps, the permission side does not skip — provided the look-aheads agree; the rewrite
+side may know MORE CTE names (unquoted forms of quoted CTE names) than the permission side -/
+theorem keeps_not_skipped (W : World) (ctesE ctesR : List Str) (I : Idents) (m m0 : Match)
+    (hsub : ∀ x, ctesE.contains x = true → ctesR.contains x = true)
     (hg : m0.g1 = m.g1) (hres : resolveV I m.g1 = resolveRaw I m.g1)
     (hlook : callAtX m0.rest = true → dotOrCallAtR m.rest = true)
     (hdot : dotAt m0.rest = true → dotOrCallAtR m.rest = true)
-    (hk : rewriteKeeps W ctes I m = true) : extractSkips W ctes I m0 = false := by
+    (hk : rewriteKeeps W ctesR I m = true) : extractSkips W ctesE I m0 = false := by
   simp only [rewriteKeeps, Bool.and_eq_true, Bool.not_eq_true'] at hk
   obtain ⟨⟨⟨k1, k2⟩, k3⟩, k4⟩ := hk
+  have n1 : ctesE.contains (W.lower m.g1) = false := by
+    cases h : ctesE.contains (W.lower m.g1) with
+    | false => rfl
+    | true => rw [hsub _ h] at k1; cases k1
+  have n2 : ctesE.contains (W.lower (resolveV I m.g1)) = false := by
+    cases h : ctesE.contains (W.lower (resolveV I m.g1)) with
+    | false => rfl
+    | true => rw [hsub _ h] at k2; cases k2
   simp only [extractSkips, hg, ← hres, Bool.or_eq_false_iff]
-  refine ⟨⟨⟨⟨k3, k2⟩, k1⟩, ?_⟩, ?_⟩
+  refine ⟨⟨⟨⟨k3, n2⟩, n1⟩, ?_⟩, ?_⟩
   · cases hd : dotAt m0.rest with
     | false => rfl
     | true => rw [hdot hd] at k4; cases k4
@@ -206,7 +237,6 @@ theorem cteNamesHdr_eq (W : World) (t : Str) : cteNamesHdr W t = cteNames W t :=
 
 /-- side conditions of the header (slow) path -/
 structure StableHdr (W : World) (n : Norm) : Prop where
-  simple : ∀ m ∈ W.findAll .simple n.text, callAtX m.rest = true → dotOrCallAtR m.rest = true
   joinSimple : ∀ m ∈ W.findAll .joinSimple (textsHdr W n).t3,
     ∃ m0 ∈ W.findAll .joinSimple n.text, m0.g1 = m.g1 ∧
       (callAtX m0.rest = true → dotOrCallAtR m.rest = true) ∧ (dotAt m0.rest = true → dotOrCallAtR m.rest = true)
@@ -233,7 +263,7 @@ theorem rewNoHdr_covered (W : World) (hcap : CapNoDot W) (n : Norm) (hst : Stabl
   have simple : ∀ m m0 : Match, (m0 ∈ W.findAll .simple n.text ∨ m0 ∈ W.findAll .joinSimple n.text) →
       m0.g1 = m.g1 → (callAtX m0.rest = true → dotOrCallAtR m.rest = true) →
       (dotAt m0.rest = true → dotOrCallAtR m.rest = true) →
-      rewriteKeeps W (cteNames W n.text) n.idents m = true →
+      rewriteKeeps W (withUnquoted W n.idents (cteNames W n.text)) n.idents m = true →
       Covered (refsExtracted W n) ⟨defaultDB, resolveV n.idents m.g1⟩ := by
     intro m m0 hm0 hg hl hd hk
     have hc := hm0.elim (hcap _ _ _) (hcap _ _ _)
@@ -241,7 +271,7 @@ theorem rewNoHdr_covered (W : World) (hcap : CapNoDot W) (n : Norm) (hst : Stabl
     rcases resolveV_cases n.idents m.g1 hc.1 with s1 | ⟨e1, d1⟩
     · right; left; exact s1
     right; right
-    have hns := keeps_not_skipped W _ n.idents m m0 hg e1 hl hd hk
+    have hns := keeps_not_skipped W (cteNames W n.text) _ n.idents m m0 (contains_withUnquoted W _ _) hg e1 hl hd hk
     have := simple_covered W n m0 hm0 hns (by rw [hg]; exact e1) (by rw [hg]; exact d1)
     rw [hg] at this; exact this
   rcases hr with ((⟨m, hm, rfl⟩ | ⟨m, hm, rfl⟩) | ⟨m, ⟨hm, hk⟩, rfl⟩) | ⟨m, ⟨hm, hk⟩, rfl⟩
@@ -268,7 +298,7 @@ theorem rewHdrSlow_covered (W : World) (hcap : CapNoDot W) (n : Norm) (hdr : Str
   have simple : ∀ m m0 : Match, (m0 ∈ W.findAll .simple n.text ∨ m0 ∈ W.findAll .joinSimple n.text) →
       m0.g1 = m.g1 → (callAtX m0.rest = true → dotOrCallAtR m.rest = true) →
       (dotAt m0.rest = true → dotOrCallAtR m.rest = true) →
-      rewriteKeeps W (cteNames W n.text) n.idents m = true →
+      rewriteKeeps W (withUnquoted W n.idents (cteNames W n.text)) n.idents m = true →
       Covered (applyHeader hdr (refsExtracted W n)) ⟨hdr, resolveV n.idents m.g1⟩ := by
     intro m m0 hm0 hg hl hd hk
     have hc := hm0.elim (hcap _ _ _) (hcap _ _ _)
@@ -276,13 +306,13 @@ theorem rewHdrSlow_covered (W : World) (hcap : CapNoDot W) (n : Norm) (hdr : Str
     rcases resolveV_cases n.idents m.g1 hc.1 with s1 | ⟨e1, d1⟩
     · right; left; exact s1
     right; right
-    have hns := keeps_not_skipped W _ n.idents m m0 hg e1 hl hd hk
+    have hns := keeps_not_skipped W (cteNames W n.text) _ n.idents m m0 (contains_withUnquoted W _ _) hg e1 hl hd hk
     have := simple_covered W n m0 hm0 hns (by rw [hg]; exact e1) (by rw [hg]; exact d1)
     rw [hg] at this
     exact applyHeader_mem hdr hh _ _ this rfl
   rcases hr with ⟨m, ⟨hm, hk⟩, rfl⟩ | ⟨m, ⟨hm, hk⟩, rfl⟩
   · have hm' : m ∈ W.findAll .simple n.text := hm
-    exact simple m m (Or.inl hm') rfl (hst.simple m hm') (fun h => dotAt_imp _ h) hk
+    exact simple m m (Or.inl hm') rfl (callAt_imp _) (fun h => dotAt_imp _ h) hk
   · obtain ⟨m0, hm0, g1, hl, hd⟩ := hst.joinSimple m hm
     exact simple m m0 (Or.inr hm0) g1 hl hd hk
 
@@ -332,28 +362,28 @@ theorem C14_rewrite_subset_checked_hdr (W : World) (hcap : CapNoDot W) (s hdr : 
       exact rewHdrSlow_covered W hcap (W.normP s) hdr hh hst r hr
 
 /-- the short-circuit itself: text that mentions `read_parquet` is never rewritten -/
-theorem C14_short_circuit (W : World) (s hdr : Str) (h : containsSub shortCircuitLit (W.lower s) = true) :
-    refsRewritten W s hdr = [] := by
-  simp [refsRewritten, shortCircuit, h]
+theorem C14_short_circuit (W : World) (s hdr : Str) (h : containsSub shortCircuitLit (W.lower s) = true)
+    (hc : W.rpCall s = true) : refsRewritten W s hdr = [] := by
+  simp [refsRewritten, shortCircuit, h, hc]
 
 def wOf (fa : Pat → Str → List Match) : World :=
   { findAll := fa, splice := fun _ t _ => t, normP := fun t => ⟨t, []⟩, prepass := id, lower := lowerAscii,
-    simpleStarts := fun _ => [] }
+    simpleStarts := fun _ => [], rpCall := fun _ => true }
 
 example : ∃ (W : World) (s : Str), refsRewritten W s [] ≠ [] ∧ W.prepass s = s :=
   ⟨wOf (fun p _ => if p = .simple then [⟨"cpu".toList, [], []⟩] else []), "from cpu".toList, by decide, rfl⟩
 
 /-! ### the one remaining place where the two sides differ (near-miss), and the repaired ones as history -/
 
-/-- look-ahead disagreement (UNCHANGED in the source): `isFunctionCallAt` skips line breaks, `isDotOrCallAt`
-only blanks and tabs (regenerated blank sets): `FROM cpu<LF>(x)` is a function call for the permission side, a
-table for the rewrite. DuckDB's parser rejects every such text the harness tried — near-miss, tagged, not a
-finding; it is why `StableNoHdr` / `StableHdr` carry the look-ahead clause and `inK` has `callAfterNewline`. -/
-theorem C14_lookahead_witness :
-    let W := wOf (fun p _ => if p = .simple then [⟨"cpu".toList, [], "\n(x)".toList⟩] else [])
-    refsRewritten W "select canary from cpu\n(x)".toList "secret".toList = [⟨"secret".toList, "cpu".toList⟩]
-    ∧ refsChecked W "select canary from cpu\n(x)".toList "secret".toList = [] := by
-  decide
+/-- HISTORY (fixed by 00bd721): `isFunctionCallAt` skipped line breaks, `isDotOrCallAt` trimmed only blanks and
+tabs (`dotOrCallAtRP " \t"`): `FROM cpu<LF>(x)` was a function call for the permission side and a table for the
+rewrite (a near-miss only: DuckDB's parser rejected every such text). With the regenerated trim set both agree
+on every text (`callAt_imp`), so the look-ahead needs no side condition on the same text any more. -/
+theorem C14_lookahead_agree :
+    callAtX "\n(x)".toList = true ∧ dotOrCallAtRP " \t".toList "\n(x)".toList = false ∧
+    dotOrCallAtR "\n(x)".toList = true ∧
+    (∀ rest, callAtX rest = true → dotOrCallAtR rest = true) :=
+  ⟨by decide, by decide, by decide, callAt_imp⟩
 
 /-- HISTORY (fixed by 04fa395 + 53c9b19): with the OLD gate (`cteNamesHdrP true`) the header path did not look
 for CTE names unless the text contained `with `; now both sides exclude the same names. -/
@@ -618,6 +648,18 @@ theorem C14_cache_key_injective (h1 h2 s1 s2 : Str) (v1 : headerOK h1 = true) (v
   sep_inj cacheSep (headerOK_nosep h1 v1) (headerOK_nosep h2 v2) h
 
 example : cacheKey [] ("secret:SELECT 1".toList) ≠ cacheKey "secret".toList "SELECT 1".toList := by decide
+
+/-- OPEN (found 2026-09-22, repair proposed in corpus/C14/fix-13): statement kinds that take a table reference
+without the FROM keyword. `TABLE '<path>'` is accepted by the validator (token level AND byte level: table
+position is armed only after FROM / JOIN / a cross-join comma), yields no reference, and - containing neither
+`from` nor `join` - is executed untransformed; DuckDB resolves the string as a replacement scan. -/
+theorem C14_statement_kind_witness :
+    acceptedTok [.word "TABLE".toList, .str "/r/secret/cpu/f.parquet".toList] = true ∧
+    acceptedTok [.word "SUMMARIZE".toList, .str "/r/secret/cpu/f.parquet".toList] = true ∧
+    acceptedTok [.word "PIVOT".toList, .str "/r/secret/cpu/f.parquet".toList, .word "ON".toList, .word "host".toList] = true ∧
+    (let s := "TABLE '/r/secret/cpu/f.parquet'".toList
+     validate s = .ok ∧ refsChecked strWorld s [] = [] ∧ shortCircuit strWorld s = true ∧ inK s [] = true) := by
+  decide +kernel
 
 /-! ## composition -/
 
